@@ -96,6 +96,13 @@ def gather_atoms(
             symbol_names.append(st.name)
             symbols[st.name] = st.symbol
             lookup[st.name] = st
+
+    # A name can only be one kind of atom, e.g not both a state and a parameter
+    # (even if the values are the same)
+    parameter_names = {p.name for component in components for p in component.parameters}
+    state_names = {s.name for component in components for s in component.states}
+    for name in parameter_names & state_names:
+        symbol_values[name].update({("parameter", name), ("state", name)})
     return AllAtoms(symbol_names, symbol_values, symbols, lookup)
 
 
